@@ -1,5 +1,6 @@
 (* C07 - writing and copy-mode middleware never mutate or alias their input.
-   Only statements here; every proof is `exact <lemma>` (Proofs/HeapProofs.v).  Readable definitions: Spec/C07.v
+   Only statements here; every proof is `exact <lemma>` (Proofs/HeapProofs.v, Proofs/HeapBodiesProofs.v,
+   Proofs/HeapCopyTotal.v).  Readable definitions: Spec/C07.v
    (input_untouched, shares_nothing, no_alias, dc_contract, footprint_ok, mw_ok); model: Model/Heap.v, Model/HeapMw.v.
 
    What is ASSUMED: copy.deepcopy is CPython's; it enters as an arbitrary function DC with the contract dc_contract
@@ -8,7 +9,8 @@
    sorting_blocks.py / library.py / writer.py (as transcribed in Model/HeapMw.v) leaves every pre-existing object
    untouched and returns a library from which no pre-existing object is reachable. *)
 From Coq Require Import List ZArith Bool.
-From BP Require Import Model.Heap Model.HeapMw Model.HeapBodies Spec.C07 Proofs.HeapProofs Proofs.HeapBodiesProofs.
+From BP Require Import Model.Heap Model.HeapMw Model.HeapBodies Spec.C07 Proofs.HeapProofs Proofs.HeapBodiesProofs
+  Proofs.HeapCopyTotal.
 Import ListNotations.
 Local Open Scope Z_scope.
 
@@ -106,10 +108,11 @@ Print Assumptions C07_write_string_default.
 (* The executable copy used to RUN the model (fuelled, memoised graph copy; cycles and sharing handled as in copy.py)
    satisfies the contract conclusions on EVERY well-formed heap on which it completes (flag true: the fuel did not run
    out and no dangling reference was met).
-   _partial: what is missing for `dc_contract deepcopy_exec` is completion - that the fuel S (length h) always suffices
-   on a well-formed heap (each non-memoised visit adds a distinct object of h to the memo).  Completion is shown on the
-   example heap below by vm_compute, and the copy is compared with CPython's copy.deepcopy on real object graphs by
-   the correspondence (op 165) on every run. *)
+   _partial: what is missing HERE for `dc_contract deepcopy_exec` is completion - that the fuel S (length h) always
+   suffices on a well-formed heap (each non-memoised visit adds a distinct object of h to the memo).  Completion is now
+   PROVED: C07_deepcopy_exec_total and C07_deepcopy_exec_contract below (this theorem is kept as the conditional half).
+   The copy is also compared with CPython's copy.deepcopy on real object graphs by the correspondence (op 165) on
+   every run. *)
 Theorem C07_deepcopy_exec_partial : forall h r h' r', wf_heap h -> In r (dom h) ->
   deepcopy_checked h r = Some (h', r') ->
   deepcopy_exec h r = (h', r')
@@ -118,6 +121,30 @@ Proof.
   exact (fun h r h' r' W D E => conj (deepcopy_checked_exec h r h' r' E) (deepcopy_checked_contract h r h' r' W D E)).
 Qed.
 Print Assumptions C07_deepcopy_exec_partial.
+
+(* COMPLETION (what _partial above was missing; proofs in Proofs/HeapCopyTotal.v): on every well-formed heap and every
+   root in it the executable copy completes - the fuel S (length h) never runs out and no dangling reference is met.
+   The fuel bounds the recursion depth; the memo's keys are pairwise distinct objects of h, a nested non-memoised
+   visit has pushed its key first and the memo never shrinks, so `length h < fuel + length memo` holds at every call
+   and, with length memo <= length h, leaves at least one unit of fuel at every call. *)
+Theorem C07_deepcopy_exec_total : forall h r, wf_heap h -> In r (dom h) ->
+  exists h' r', deepcopy_checked h r = Some (h', r') /\ deepcopy_exec h r = (h', r').
+Proof. exact deepcopy_total. Qed.
+Print Assumptions C07_deepcopy_exec_total.
+
+(* Hence the executable copy IS an instance of the contract that every theorem above assumes of copy.deepcopy:
+   dc_contract is inhabited (the hypothesis `dc_contract DC` is not vacuous), and the model that is RUN against the
+   implementation (Run/RunHeap.v uses deepcopy_exec) is covered by the theorems, with no side condition. *)
+Theorem C07_deepcopy_exec_contract : dc_contract deepcopy_exec.
+Proof. exact deepcopy_exec_contract. Qed.
+Print Assumptions C07_deepcopy_exec_contract.
+
+(* e.g. the stack theorem, with the hypothesis on DC discharged *)
+Theorem C07_stack_exec : forall ms h lib h' lib',
+  Forall mw_ok ms -> ms <> [] -> wf_heap h -> In lib (dom h) ->
+  run_stack deepcopy_exec ms h lib = Some (h', lib') -> no_alias h h' lib'.
+Proof. exact run_stack_exec_ok. Qed.
+Print Assumptions C07_stack_exec.
 
 (* ------------------------------------------------------------------ non-vacuity: a concrete heap.
    Library 1 with blocks [Entry 5 (key 100); DuplicateBlockKeyBlock 10 -> previous 5, duplicate Entry 12 (key 100)],
@@ -146,6 +173,25 @@ Proof. vm_compute. repeat split. Qed.
 Example C07_ex_deepcopy_completes :
   forallb (fun r => match deepcopy_checked ex_heap r with Some _ => true | None => false end) (dom ex_heap) = true.
 Proof. vm_compute. reflexivity. Qed.
+
+(* the fuel S (length h) is exactly what a cycle through all objects needs: on the 3-cycle 1 -> 2 -> 3 -> 1 (3 also
+   refers to itself) the copy completes and preserves the cycle (copies 4 -> 5 -> 6 -> 4), while with fuel length h
+   the same run gives up (the memoised visit closing the cycle needs one unit too).  With an older shadowed binding
+   in the association list (length h counts bindings, not objects) it completes as well. *)
+Definition ex_cycle : heap :=
+  [ (1%nat, OList [PRef 2%nat]); (2%nat, ODict [(7, PRef 3%nat)]); (3%nat, OInst 3 [(4, PRef 1%nat); (5, PRef 3%nat)]) ].
+Example C07_ex_cycle :
+  wf_heap_b ex_cycle = true
+  /\ deepcopy_checked ex_cycle 1
+     = Some ((4%nat, OList [PRef 5%nat]) :: (5%nat, ODict [(7, PRef 6%nat)])
+             :: (6%nat, OInst 3 [(4, PRef 4%nat); (5, PRef 6%nat)])
+             :: (6%nat, OInst 3 []) :: (5%nat, ODict []) :: (4%nat, OList []) :: ex_cycle, 4%nat)
+  /\ dc_contract_on_b deepcopy_exec ex_cycle 1 = true
+  /\ snd (dc (length ex_cycle) ex_cycle [] 1) = false
+  /\ (let h := (1%nat, OList [PRef 2%nat; PRef 1%nat]) :: ex_cycle in
+      wf_heap_b h = true /\ dc_contract_on_b deepcopy_exec h 1 = true
+      /\ match deepcopy_checked h 1 with Some _ => true | None => false end = true).
+Proof. vm_compute. repeat split. Qed.
 
 (* the conclusions of the theorems as a boolean on a concrete run *)
 Definition no_alias_b (h : heap) (r : option (heap * nat)) : option (bool * bool) :=
